@@ -111,7 +111,10 @@ func (c *Code) Move(from int, to int) error {
 // code, this method returns zero value of block and false.
 func (c *Code) Address(a model.Addr) (Block, bool) {
 	i := sort.Search(len(c.blocksByAddr), func(i int) bool {
-		return c.blocksByAddr[i].end > a
+		// Compare with the address of the last byte of the block. The
+		// (exclusive) end of a block which ends at the very top of the
+		// address space wraps around to zero.
+		return c.blocksByAddr[i].end-1 >= a
 	})
 	if i == len(c.blocksByAddr) {
 		return Block{}, false
